@@ -170,7 +170,7 @@ structure ChunkOk (c : ChunkWrite) : Prop where
 
 /-! ## pre-sizing by `WriteRowGroup` -/
 
-/-- MIRROR `ConcurrentRowGroupWriter.configureBloomFilters`, writer.go, for one column that has a
+/-- MIRROR `ConcurrentRowGroupWriter.configureBloomFilters`, writer.go:901-931, for one column that has a
     filter: `exact` = `chunkNumValuesIsExact(source chunk)`, `srcValues` = `source.NumValues()` (nulls
     included), `numRows` = rows of the source row group, `maxRows` = `MaxRowsPerRowGroup` of the
     writer, `repeated` = `maxRepetitionLevel > 0`. The result is `len(c.filter)` while the FIRST output
